@@ -3,7 +3,7 @@
 import io
 import re
 
-from .. import irround, irsem
+from .. import fuzz, irround, irsem, irwf
 from ..core import Discard, Stats, hyp_search, load_findings, subseed
 
 PID = "C15"
@@ -84,7 +84,7 @@ def _initial_image(m, ptr_bits):
     return {name: bytes(obj.data).hex() for name, obj in mach.globals.items()}
 
 
-def check_module(m, ptr_bits, calls, stats=None):
+def check_module(m, ptr_bits, calls, stats=None, image=True):
     """The round trip of one module.  Returns (failure message | None, number of defined calls compared)."""
     from ppci import ir, irutils
 
@@ -107,7 +107,15 @@ def check_module(m, ptr_bits, calls, stats=None):
                 return "re-read module prints differently at line %d: original %r, re-read %r" % (i + 1, a, b), 0
         return "re-read module prints differently: %d lines vs %d lines" % (len(l1), len(l2)), 0
     # initial memory image (behaviour before any call)
+    if not image:
+        # fuzzed texts (thorough tier) may declare globals of any size: compare the declarations, build no memory
+        for v1, v2 in zip(m.variables, m2.variables):
+            if (v1.amount, v1.alignment, v1.value) != (v2.amount, v2.alignment, v2.value):
+                return "global %s differs after the round trip: (amount, alignment, value) original %r, re-read %r" % (
+                    v1.name, (v1.amount, v1.alignment, v1.value), (v2.amount, v2.alignment, v2.value)), 0  # fmt: skip
     try:
+        if not image:
+            raise irsem.Unsupported("initial image not built for fuzzed text")
         img1 = _initial_image(m, ptr_bits)
         try:
             img2 = _initial_image(m2, ptr_bits)
@@ -165,6 +173,8 @@ def run_case(case, stats=None):
 
 
 def replay(case):
+    if fuzz.is_case(case):
+        return fuzz.replay_case(case, fuzz_reader)
     return run_case(case)[0]
 
 
@@ -225,9 +235,18 @@ def _signature(fid, msg, txt, feats):
     return False
 
 
+def _case_module(case):
+    """-> (module, ptr_bits, calls, image?) for both case formats"""
+    if fuzz.is_case(case):
+        from ppci import irutils
+
+        return irutils.read_module(io.StringIO(fuzz.case_bytes(case).decode("utf-8", "ignore"))), 64, [], False
+    return irround.build_case(case) + (True,)
+
+
 def classify(case, msg):
     try:
-        m, _, _ = irround.build_case(case)
+        m = _case_module(case)[0]
         feats = irround.module_features(m)
         txt = print_text(m)
     except Exception:
@@ -244,10 +263,10 @@ def _passes_with_unique_local_names(case):
     """Model of C15-KF11: the failure is caused by a function-local name that is ambiguous with a module-level name,
     i.e. the very same module round-trips once those local values carry fresh names."""
     try:
-        m, ptr_bits, calls = irround.build_case(case)
+        m, ptr_bits, calls, image = _case_module(case)
         if not irround.uniquify_locals(m):
             return False
-        return check_module(m, ptr_bits, calls)[0] is None
+        return check_module(m, ptr_bits, calls, image=image)[0] is None
     except Exception:
         return False
 
@@ -308,3 +327,108 @@ def run(ctx):
     irround.warm_fragments()
     n = ctx.scale(640, 40000)
     ctx.pmap(_worker, [(subseed(ctx.seed, PID, w), n // 16, exclude, not ctx.quick) for w in range(16)])
+    if not ctx.quick:
+        fuzz_layer(ctx, exclude)
+
+
+# ---------------------------------------------------------------------------
+# coverage-guided fuzzing of the reader (thorough tier only; driver: vf/fuzz.py)
+
+FUZZ_TARGET = "C15.reader"
+FUZZ_RUNS = 100000
+FUZZ_DICT = [b"module", b"external", b"function", b"procedure", b"variable", b"global", b"local", b"bytes", b"aligned", b"at", b"blob<", b"phi",
+             b"alloc", b"load", b"store", b"volatile", b"cast", b"undefined", b"call", b"literal", b"jmp", b"cjmp", b"return", b"exit", b"memcpy",
+             b"i8", b"u8", b"i16", b"u16", b"i32", b"u32", b"i64", b"u64", b"f32", b"f64", b"ptr", b"rol", b"ror", b"inf", b"nan", b"-inf",
+             b" = ", b";\n", b": {\n", b"}\n", b" ? ", b"<<", b">>", b"==", b"!=", b"<=", b">=", b"1e+20", b"'00'", b"&"]  # fmt: skip
+
+
+def _open_ids():
+    from ..core import open_finding_ids
+
+    return open_finding_ids(PID)
+
+
+def fuzz_reader(data):
+    """One fuzz input = bytes of an IR text.  Returns an outcome label; raises fuzz.Failure on a C15 violation.
+
+    C15 speaks about well-formed modules: whatever read_module does with a text it does not accept is only counted
+    (diagnostic = IrParseException / CompilerError; anything else = 'rejected:internal', the domain of C28).
+    A text the reader ACCEPTS, whose module passes ppci's verifier and the independent checker vf/irwf, is a
+    well-formed module: print -> read -> print must be the identity on it, globals and volatile flags included."""
+    from ppci import irutils
+    from ppci.common import CompilerError
+    from ppci.irutils.reader import IrParseException
+
+    text = data.decode("utf-8", "ignore")
+    try:
+        m = irutils.read_module(io.StringIO(text))
+    except (IrParseException, CompilerError) as e:
+        return "rejected:diagnostic:" + type(e).__name__
+    except (RecursionError, MemoryError) as e:
+        return "rejected:resource:" + type(e).__name__
+    except Exception as e:
+        return "rejected:internal:" + fuzz.exc_bucket(e)
+    try:
+        irutils.verify_module(m)
+    except CompilerError as e:
+        return "accepted:not-well-formed(verifier diagnostic)"
+    except (RecursionError, MemoryError) as e:
+        return "accepted:resource:" + type(e).__name__
+    except Exception as e:
+        return "accepted:verifier-internal:" + fuzz.exc_bucket(e)
+    try:
+        if irwf.check_module(m):
+            return "accepted:not-well-formed(vf/irwf)"
+        msg = check_module(m, 64, [], image=False)[0]
+    except (RecursionError, MemoryError) as e:
+        return "accepted:resource:" + type(e).__name__
+    if msg is None:
+        return "accepted:round-trip-ok" + (":functions" if m.functions else "")
+    kid = classify(fuzz.case(FUZZ_TARGET, data), msg)
+    if kid and kid in _open_ids():
+        return "known:" + kid
+    mo = re.search(r"raised (\w+)\(.*\) in (\S+)", msg, re.S)
+    bucket = "%s@%s" % (mo.group(1), mo.group(2)) if mo else re.split(r"[:;]| at line", msg)[0][:60]
+    raise fuzz.Failure("fuzzed IR text accepted by read_module as a well-formed module: " + msg + "\n" + text[:1500], bucket)
+
+
+def fuzz_seeds(seed, exclude):
+    """print_module texts of ~30 generated modules (known-finding shapes excluded) + the irround C fragments."""
+    prof = genir_small_profile()
+    seeds = []
+    for c in fuzz.collect(irround.gen_case_strategy(exclude, None, prof), 60, subseed(seed, PID, "fuzz-seeds")):
+        try:
+            txt = print_text(irround.build_case(c)[0]).encode()
+        except Exception:
+            continue
+        if len(txt) <= fuzz.MAX_LEN and txt not in seeds:
+            seeds.append(txt)
+        if len(seeds) >= 30:
+            break
+    for frag in irround.C_FRAGMENTS:
+        try:
+            txt = print_text(irround.compile_c(irround.render_fragment(frag, 7, 3, "1.5"), "0")).encode()
+        except Discard:
+            continue
+        if len(txt) <= fuzz.MAX_LEN:
+            seeds.append(txt)
+    return seeds
+
+
+def genir_small_profile():
+    from .. import genir
+
+    return genir.Profile(name="roundtrip-small", undef=True, nonfinite=True, permute_blocks=True, max_blocks=4, max_ins=6, max_funcs=2)
+
+
+def fuzz_layer(ctx, exclude):
+    try:
+        info = {}
+        fails = fuzz.campaign(FUZZ_TARGET, fuzz_reader, fuzz_seeds(ctx.seed, exclude), fuzz.runs(FUZZ_RUNS), subseed(ctx.seed, PID, "fuzz"),
+                              ctx.tmpdir(), dictionary=FUZZ_DICT, info=info)  # fmt: skip
+    except ImportError:
+        ctx.stats.notes.append("atheris unavailable")
+        return
+    ctx.extra["fuzz"] = info
+    for data, msg in fails:
+        ctx.fail(fuzz.case(FUZZ_TARGET, data), msg)
